@@ -831,12 +831,14 @@ def o_C10(I, known=None):
     outstanding = []
     domain = True
     reconnects = sum(1 for e in I.events if e['kind'] == 'setup')
-    if reconnects > 1:
-        return out
+    if reconnects > 1 and any(e['kind'] == 'markdisc' for e in I.events):
+        return out          # resumed sessions: C10 quantifies over the histories of one connection (DESIGN.md section 8)
     for e in I.events:
         if e['kind'] == 'in' and e['pkt'] and e['pkt']['type'] == 2 and e['ctx'] in ('connect', 'authorize'):
             v = pget(e['pkt']['props'], 33)
             R = v if v is not None else 65535
+            outstanding = []          # the quota belongs to the connection: a new CONNACK starts a new count
+            domain = True
         if not domain:
             break
         if e['kind'] == 'w' and e['pkt'] and e['pkt']['type'] == 3 and e['pkt']['qos'] > 0 and not e['pkt']['dup']:
